@@ -46,4 +46,4 @@ func verifMapRangers() []string                         { return nil }
 func verifSetNumCPU(n int)                              {}
 func verifTraceStart()                                  {}
 func verifTraceEvent(kind string)                       {}
-func verifScheduleCheck(cpus int)                       {}
+func verifScheduleCheck(cpus int, stepEncoding int)                       {}
